@@ -4,6 +4,7 @@ package main
 
 import (
 	"fmt"
+	"go/constant"
 	"go/token"
 	"go/types"
 	"sort"
@@ -140,6 +141,65 @@ func ruleZeroWidthGuard(c *Ctx, rule string) {
 	_ = w
 	ob2.Check(len(bad) == 0 && len(vals) > 0, fmt.Sprintf("stored values: %v", uniq(vals)), "loopMatchIndexStart is also set from "+strings.Join(uniq(bad), ", "))
 	ob2.Nontrivial = true
+	// every increment of the iteration counter re-records where the new iteration starts, on all paths
+	isLoopField := func(addr ssa.Value, name string) bool {
+		fa, ok := addr.(*ssa.FieldAddr)
+		if !ok || fieldName(deref(fa.X.Type()), fa.Field) != name {
+			return false
+		}
+		n, ok := deref(fa.X.Type()).(*types.Named)
+		return ok && n.Obj().Name() == "LoopState"
+	}
+	nInc := 0
+	for _, f := range c.SrcFuncs("engine") {
+		instrsOf(f, func(in ssa.Instruction) {
+			st, ok := in.(*ssa.Store)
+			if !ok || !isLoopField(st.Addr, "iterationStep") {
+				return
+			}
+			if b, ok := st.Val.(*ssa.BinOp); !ok || b.Op != token.ADD {
+				return
+			}
+			nInc++
+			ob4 := r.Ob(rule, fnName(f)+": an incremented iteration counter comes with a re-recorded iteration start", c.pos(st.Pos()))
+			// forward search from the increment for a return that is reached without a store to loopMatchIndexStart
+			escaped := ""
+			seen := map[*ssa.BasicBlock]bool{}
+			var walk func(b *ssa.BasicBlock, from int)
+			walk = func(b *ssa.BasicBlock, from int) {
+				for i := from; i < len(b.Instrs); i++ {
+					switch x := b.Instrs[i].(type) {
+					case *ssa.Store:
+						if isLoopField(x.Addr, "loopMatchIndexStart") {
+							return
+						}
+					case *ssa.Return:
+						escaped = c.pos(x.Pos())
+						return
+					}
+				}
+				for _, s := range b.Succs {
+					if !seen[s] {
+						seen[s] = true
+						walk(s, 0)
+					}
+				}
+			}
+			idx := 0
+			for i, x := range st.Block().Instrs {
+				if x == ssa.Instruction(st) {
+					idx = i + 1
+				}
+			}
+			walk(st.Block(), idx)
+			if escaped == "" {
+				ob4.OKnt("every path from the increment to a return stores loopMatchIndexStart")
+			} else {
+				ob4.Bad("a path from the increment returns [" + escaped + "] without re-recording loopMatchIndexStart: the zero-width check of the next iteration compares against the start of an earlier iteration and never fires once anything was consumed")
+			}
+		})
+	}
+	r.Floor(rule, "increments of LoopState.iterationStep", nInc, 1)
 	ob3 := r.Ob(rule, "CHECKZEROMATCHLOOP compares the recorded start with len(currentMatch)", c.pos(chkF.Pos()))
 	got := ""
 	instrsOf(chkF, func(in ssa.Instruction) {
@@ -1048,4 +1108,409 @@ func ruleLoopProtocol(c *Ctx, rule string) {
 	default:
 		ob.OKnt(fmt.Sprintf("%d saved or returned states classified: body-states carry the record, exit-states do not", nchecks))
 	}
+}
+
+// ruleReaderPerSearch implements C06.R5 / C07.R4: every command searches a file through a reader opened for that command in the
+// same loop iteration, i.e. after everything earlier commands wrote to the file. A reader kept from an earlier command serves
+// buffered content and a size from before the rewrite.
+func ruleReaderPerSearch(c *Ctx, rule string) {
+	r := c.R
+	ctors := map[*ssa.Function]bool{}
+	for _, n := range []string{"ReaderFromFile", "ReaderFromString", "ReaderFromFileToMemory"} {
+		if f := c.Fn("files", n); f != nil {
+			ctors[f] = true
+		}
+	}
+	var fromCtor func(v ssa.Value, d int, calls *[]*ssa.Call) bool
+	fromCtor = func(v ssa.Value, d int, calls *[]*ssa.Call) bool {
+		if d > 4 {
+			return false
+		}
+		switch x := v.(type) {
+		case *ssa.Call:
+			if ctors[x.Call.StaticCallee()] {
+				*calls = append(*calls, x)
+				return true
+			}
+			return false
+		case *ssa.Phi:
+			for _, e := range x.Edges {
+				if !fromCtor(e, d+1, calls) {
+					return false
+				}
+			}
+			return len(x.Edges) > 0
+		}
+		return false
+	}
+	for changed := true; changed; {
+		changed = false
+		for _, fn := range c.SrcFuncs("engine") {
+			if ctors[fn] {
+				continue
+			}
+			instrsOf(fn, func(in ssa.Instruction) {
+				ret, ok := in.(*ssa.Return)
+				if !ok || len(ret.Results) != 1 {
+					return
+				}
+				var cs []*ssa.Call
+				if fromCtor(ret.Results[0], 0, &cs) && !ctors[fn] {
+					ctors[fn] = true
+					changed = true
+				}
+			})
+		}
+	}
+	rdT := c.NamedType("files", "Reader")
+	fm := c.Fn("engine", "findMatches")
+	n := 0
+	for _, fn := range c.SrcFuncs("engine") {
+		// the driver: a function that iterates over the commands of a program and hands a reader to a search function
+		k := 0
+		instrsOf(fn, func(in ssa.Instruction) {
+			call, ok := in.(*ssa.Call)
+			if !ok {
+				return
+			}
+			sc := call.Call.StaticCallee()
+			if sc == nil || !c.isRepoFn(sc) || ctors[sc] {
+				return
+			}
+			loop := loopBlocks(fn, call.Block())
+			if loop == nil {
+				return
+			}
+			for _, a := range call.Call.Args {
+				p, isPtr := a.Type().(*types.Pointer)
+				if !isPtr || rdT == nil || !types.Identical(p.Elem(), rdT) {
+					continue
+				}
+				if _, isParam := a.(*ssa.Parameter); isParam {
+					continue // handed down by the caller, which is examined itself
+				}
+				// only drivers: the callee must be a search function (it reaches the scan loop)
+				if fm == nil || !c.Reachable(sc)[fm] {
+					continue
+				}
+				n++
+				k++
+				ob := r.Ob(rule, fmt.Sprintf("%s: call #%d of %s searches through a reader opened in the same iteration", fnName(fn), k, sc.Name()), c.pos(call.Pos()))
+				// a driver that forces the mode that writes nothing cannot make a reader stale
+				nothing := false
+				if k := c.constByName("engine", "NOTHING"); k != nil {
+					for _, a2 := range call.Call.Args {
+						if kc, ok := a2.(*ssa.Const); ok && kc.Value != nil && types.Identical(kc.Type(), k.Type()) && constant.Compare(kc.Value, token.EQL, k.Val()) {
+							nothing = true
+						}
+					}
+				}
+				if nothing {
+					ob.OKnt("the search is run in mode NOTHING: no file is rewritten, so a reader cannot go stale")
+					continue
+				}
+				var cs []*ssa.Call
+				if !fromCtor(a, 0, &cs) {
+					ob.Bad("the reader is " + exprStr(a) + ", not the result of a reader constructor called for this search: a reader kept from an earlier command serves the file as it was before that command rewrote it")
+					continue
+				}
+				bad := ""
+				for _, ctor := range cs {
+					if !loop[ctor.Block()] {
+						bad = callName(&ctor.Call) + " is called outside the loop that runs the searches [" + c.pos(ctor.Pos()) + "]"
+					}
+				}
+				if bad != "" {
+					ob.Bad(bad + ": all iterations share one reader")
+				} else {
+					ob.OKnt(fmt.Sprintf("%d constructor call(s), all inside the innermost loop around the search", len(cs)))
+				}
+			}
+		})
+	}
+	r.Floor(rule, "searches that are handed a reader by a loop", n, 1)
+}
+
+// ruleOptionalGuard implements C09.R11: Optional.GetValue panics on an empty optional, so every call must be dominated by the
+// true edge of HasValue() on the same optional.
+func ruleOptionalGuard(c *Ctx, rule string) {
+	r := c.R
+	isOptMethod := func(sc *ssa.Function, name string) bool {
+		if sc == nil || sc.Signature.Recv() == nil {
+			return false
+		}
+		base := sc.Name()
+		if i := strings.Index(base, "["); i > 0 {
+			base = base[:i]
+		}
+		if base != name {
+			return false
+		}
+		n, ok := deref(sc.Signature.Recv().Type()).(*types.Named)
+		return ok && n.Obj().Name() == "Optional" && n.Obj().Pkg() != nil && n.Obj().Pkg().Name() == "ds"
+	}
+	var fns []*ssa.Function
+	for f := range c.allFns {
+		if c.isRepoFn(f) && len(f.Blocks) > 0 && f.Synthetic == "" {
+			fns = append(fns, f)
+		}
+	}
+	sort.Slice(fns, func(i, j int) bool { return fnName(fns[i]) < fnName(fns[j]) })
+	n := 0
+	for _, fn := range fns {
+		k := 0
+		instrsOf(fn, func(in ssa.Instruction) {
+			call, ok := in.(*ssa.Call)
+			if !ok || !isOptMethod(call.Call.StaticCallee(), "GetValue") || len(call.Call.Args) == 0 {
+				return
+			}
+			n++
+			k++
+			recv := exprStr(call.Call.Args[0])
+			ob := r.Ob(rule, fmt.Sprintf("%s: GetValue #%d on %s is guarded by HasValue", fnName(fn), k, recv), c.pos(call.Pos()))
+			guarded := false
+			instrsOf(fn, func(y ssa.Instruction) {
+				iff, ok := y.(*ssa.If)
+				if !ok {
+					return
+				}
+				hc, ok := iff.Cond.(*ssa.Call)
+				if !ok || !isOptMethod(hc.Call.StaticCallee(), "HasValue") || len(hc.Call.Args) == 0 || exprStr(hc.Call.Args[0]) != recv {
+					return
+				}
+				t := iff.Block().Succs[0]
+				if len(t.Preds) == 1 && (t == call.Block() || t.Dominates(call.Block())) {
+					guarded = true
+				}
+			})
+			if guarded {
+				ob.OKnt("dominated by the true edge of " + recv + ".HasValue()")
+			} else {
+				ob.Bad("GetValue panics on an empty optional and no dominating " + recv + ".HasValue() test was found (GetValueOrDefault is the total accessor)")
+			}
+		})
+	}
+	r.Stats["optional_getvalue_calls"] = n
+}
+
+// ruleConsumingLoopsStopAtEOF implements C10.R6: a loop inside one instruction that consumes input must leave when the offset
+// reaches the size of the input, because CONSUME at the end consumes nothing and such a loop would spin.
+func ruleConsumingLoopsStopAtEOF(c *Ctx, rule string) {
+	r := c.R
+	cons := c.stateMethod("CONSUME")
+	if cons == nil {
+		r.Ob(rule, "anchor (*SearchEngineState).CONSUME", "").Und("not found")
+		return
+	}
+	isEOFTest := func(v ssa.Value) bool {
+		b, ok := v.(*ssa.BinOp)
+		if !ok || (b.Op != token.EQL && b.Op != token.GEQ && b.Op != token.NEQ && b.Op != token.LSS) {
+			return false
+		}
+		x, y := exprStr(b.X), exprStr(b.Y)
+		off := func(s string) bool { return strings.HasSuffix(s, ".currentFileOffset") }
+		size := func(s string) bool { return strings.HasSuffix(s, ".reader.Size()") }
+		return (off(x) && size(y)) || (off(y) && size(x))
+	}
+	fnHasEOFTest := func(f *ssa.Function) bool {
+		has := false
+		instrsOf(f, func(in ssa.Instruction) {
+			if v, ok := in.(ssa.Value); ok && isEOFTest(v) {
+				has = true
+			}
+		})
+		return has
+	}
+	cg := c.CG()
+	n := 0
+	for _, fn := range c.SrcFuncs("engine") {
+		if fn == cons {
+			continue
+		}
+		k := 0
+		for _, comp := range sccs(fn, func(a, b *ssa.BasicBlock) bool { return true }) {
+			if len(comp) == 1 {
+				self := false
+				for _, s := range comp[0].Succs {
+					if s == comp[0] {
+						self = true
+					}
+				}
+				if !self {
+					continue
+				}
+			}
+			in := map[*ssa.BasicBlock]bool{}
+			for _, b := range comp {
+				in[b] = true
+			}
+			var consumeAt ssa.Instruction
+			for _, b := range comp {
+				for _, x := range b.Instrs {
+					if staticCallee(x) == cons {
+						consumeAt = x
+					}
+				}
+			}
+			if consumeAt == nil {
+				continue
+			}
+			n++
+			k++
+			ob := r.Ob(rule, fmt.Sprintf("%s: consuming loop #%d leaves at end of input", fnName(fn), k), c.pos(consumeAt.Pos()))
+			ok := false
+			var unknown []string
+			for _, b := range comp {
+				iff, isIf := b.Instrs[len(b.Instrs)-1].(*ssa.If)
+				if !isIf {
+					continue
+				}
+				exits := !in[b.Succs[0]] || !in[b.Succs[1]]
+				if isEOFTest(iff.Cond) {
+					// the test itself, or a short-circuit operand of the exit condition
+					ok = true
+					continue
+				}
+				if !exits {
+					continue
+				}
+				if call, isCall := iff.Cond.(*ssa.Call); isCall {
+					// the exit predicate is a call: every function it can resolve to must test for the end of input
+					var callees []*ssa.Function
+					if sc := call.Call.StaticCallee(); sc != nil {
+						callees = append(callees, sc)
+					} else if node := cg.Nodes[fn]; node != nil {
+						for _, e := range node.Out {
+							if e.Site == ssa.CallInstruction(call) {
+								callees = append(callees, e.Callee.Func)
+							}
+						}
+					}
+					all := len(callees) > 0
+					for _, cal := range callees {
+						target := cal
+						// bound-method wrappers forward to the method
+						if cal.Synthetic != "" {
+							instrsOf(cal, func(y ssa.Instruction) {
+								if sc := staticCallee(y); sc != nil && c.isRepoFn(sc) {
+									target = sc
+								}
+							})
+						}
+						if !fnHasEOFTest(target) {
+							all = false
+							unknown = append(unknown, fnName(target))
+						}
+					}
+					if all {
+						ok = true
+					}
+				}
+			}
+			direct := false
+			for _, b := range comp {
+				if iff, isIf := b.Instrs[len(b.Instrs)-1].(*ssa.If); isIf && isEOFTest(iff.Cond) {
+					direct = true
+				}
+			}
+			if direct {
+				unknown = nil
+			}
+			switch {
+			case ok && len(unknown) == 0:
+				ob.OKnt("an exit of the loop tests currentFileOffset against reader.Size()")
+			case len(unknown) > 0:
+				ob.Bad("the loop consumes input and leaves on a predicate that can be " + strings.Join(uniq(unknown), ", ") + ", which never looks at the end of the input: at the end CONSUME reads nothing and the loop spins inside one instruction")
+			default:
+				ob.Bad("the loop consumes input but no exit tests currentFileOffset against reader.Size(): at the end CONSUME reads nothing and the loop spins inside one instruction")
+			}
+		}
+	}
+	r.Floor(rule, "consuming loops inside instruction handlers", n, 1)
+}
+
+// ruleBacktrackResumesTop implements C01.R6: backtracking resumes exactly the most recently saved state. In every method of the VM
+// state that pops the backtrack stack, each popped state is handed to Set on every path before the function returns or pops again;
+// a popped checkpoint that is dropped is an alternative that is never explored.
+func ruleBacktrackResumesTop(c *Ctx, rule string) {
+	r := c.R
+	stT := c.NamedType("engine", "SearchEngineState")
+	setF := c.stateMethod("Set")
+	if stT == nil || setF == nil {
+		r.Ob(rule, "anchor engine.SearchEngineState / Set", "").Und("not found")
+		return
+	}
+	isBacktrackPop := func(in ssa.Instruction) *ssa.Call {
+		call, ok := in.(*ssa.Call)
+		if !ok {
+			return nil
+		}
+		sc := call.Call.StaticCallee()
+		if sc == nil || !strings.HasPrefix(sc.Name(), "Pop") || len(call.Call.Args) == 0 {
+			return nil
+		}
+		for _, s := range traceAddr(call.Call.Args[0]).Steps {
+			if s.Kind == "field" && s.Field == "backtrack" && s.Struct != nil && types.Identical(s.Struct, stT) {
+				return call
+			}
+		}
+		return nil
+	}
+	n := 0
+	for _, fn := range c.SrcFuncs("engine") {
+		k := 0
+		instrsOf(fn, func(in ssa.Instruction) {
+			pop := isBacktrackPop(in)
+			if pop == nil {
+				return
+			}
+			n++
+			k++
+			ob := r.Ob(rule, fmt.Sprintf("%s: checkpoint popped at #%d is resumed", fnName(fn), k), c.pos(pop.Pos()))
+			problem := ""
+			seen := map[*ssa.BasicBlock]bool{}
+			var walk func(b *ssa.BasicBlock, from int)
+			walk = func(b *ssa.BasicBlock, from int) {
+				for i := from; i < len(b.Instrs) && problem == ""; i++ {
+					x := b.Instrs[i]
+					if sc := staticCallee(x); sc == setF {
+						call := x.(*ssa.Call)
+						if len(call.Call.Args) == 2 && (call.Call.Args[1] == ssa.Value(pop) || strings.Contains(exprStr(call.Call.Args[1]), exprStr(pop))) {
+							return
+						}
+					}
+					if p2 := isBacktrackPop(x); p2 != nil {
+						problem = "another checkpoint is popped [" + c.pos(p2.Pos()) + "] before this one was resumed"
+						return
+					}
+					if ret, ok := x.(*ssa.Return); ok {
+						problem = "the function returns [" + c.pos(ret.Pos()) + "] without resuming it"
+						return
+					}
+				}
+				if problem != "" {
+					return
+				}
+				for _, s := range b.Succs {
+					if !seen[s] {
+						seen[s] = true
+						walk(s, 0)
+					}
+				}
+			}
+			idx := 0
+			for i, x := range pop.Block().Instrs {
+				if x == ssa.Instruction(pop) {
+					idx = i + 1
+				}
+			}
+			walk(pop.Block(), idx)
+			if problem == "" {
+				ob.OKnt("every path from the pop reaches Set(popped state)")
+			} else {
+				ob.Bad(problem + ": a saved alternative is discarded, so the search no longer explores the alternatives in backtracking order and can miss the match the semantics defines")
+			}
+		})
+	}
+	r.Floor(rule, "pops of the backtrack stack", n, 1)
 }
